@@ -1,13 +1,16 @@
 /-
-C02/C01 — column settings in the round trip: `pk`, `increment`, `unique`, `not null` in the renderer's order.
+C02/C01 — column settings in the round trip: inline references, `pk`, `increment`, an integer default, `unique`,
+`not null`, a note, properties - in the renderer's order.
 `flags_table_roundtrip_partial`: one table, any positive number of columns, each with any subset of the four flags.
 -/
 import PyDBMLProofs.Props.C02Form
+import PyDBMLProofs.Props.C02Refs
 namespace PyDBML
 namespace C02
 open Lex Grammar Build
 
 inductive Flag where | pk | increment | unique | notNull | note (t : Str) | prop (k v : Str) | defInt (d : Str)
+  | ref (k : RefKind) (tn cn : Str)
   deriving DecidableEq
 
 def Flag.text : Flag → Str
@@ -18,6 +21,7 @@ def Flag.text : Flag → Str
   | .note t => 'n' :: 'o' :: 't' :: 'e' :: ':' :: ' ' :: '\'' :: (prepareTextForDbml t ++ ['\''])
   | .prop k v => k ++ ':' :: ' ' :: '\'' :: (prepareTextForDbml v ++ ['\''])
   | .defInt d => 'd' :: 'e' :: 'f' :: 'a' :: 'u' :: 'l' :: 't' :: ':' :: ' ' :: d
+  | .ref k tn cn => IRefT.text { kind := k, tn := tn, cn := cn }
 
 /-- the words a setting may begin with: a property key beginning with one of them is read as that setting
     (KF-C01-prop-key-kw-prefix) -/
@@ -37,6 +41,7 @@ def Flag.ok (props : Bool) : Flag → Prop
   | .note t => Plain t ∧ hasTriple t = false
   | .prop k v => props = true ∧ KeyOK k ∧ Plain v ∧ hasTriple v = false
   | .defInt d => DigitsOK d
+  | .ref _ tn cn => NameOK tn ∧ NameOK cn
   | _ => True
 
 def Flag.setting : Flag → ColSetting
@@ -47,6 +52,7 @@ def Flag.setting : Flag → ColSetting
   | .note t => .note t
   | .prop k v => .prop k v
   | .defInt d => .default (.int d)
+  | .ref k tn cn => .ref (IRefT.bp { kind := k, tn := tn, cn := cn })
 
 theorem swc_ne2 (x y : Char) (r : Str) (s : String) (k1 k2 : Char) (ks : Str) (hs : s.toList = k1 :: k2 :: ks)
     (h : (pyUpper1 k2 == pyUpper1 y) = false) : startsWithCaseless (x :: y :: r) s.toList = false := by
@@ -56,6 +62,21 @@ theorem swc_ne4 (a b c d : Char) (r : Str) (s : String) (k1 k2 k3 k4 : Char) (ks
     (hs : s.toList = k1 :: k2 :: k3 :: k4 :: ks) (h : (pyUpper1 k4 == pyUpper1 d) = false) :
     startsWithCaseless (a :: b :: c :: d :: r) s.toList = false := by
   rw [hs]; simp [startsWithCaseless, h]
+
+/-- `col_name` of an inline reference on `"t"."c"` followed by something that does not start (after blanks) with a dot -/
+theorem colName_ok (c : Cur) (t col after : Str) (hn : (skipWs c).rest = sideText t col after)
+    (hdot : ∀ d : Cur, d.rest = after → sym "." d = .fail)
+    (ht : NameOK t) (hc : NameOK col) (hp : c.pastEnd = false) :
+    ∃ c', colName c = .ok (none, t, col) c' ∧ c'.rest = after ∧ c'.pastEnd = false := by
+  obtain ⟨c1, hnm1, hr1, hp1⟩ := name_quoted_ok c t _ hn ht hp
+  have hN1 : Next c1 '.' ('"' :: (col ++ '"' :: after)) := skipWs_rest_head c1 '.' _ hr1 (by decide)
+  obtain ⟨c2, hdt, hr2, hp2⟩ := sym_ok "." '.' rfl c1 _ hN1 hp1
+  have hN2 : (skipWs c2).rest = '"' :: (col ++ '"' :: after) := skipWs_rest_head c2 '"' _ hr2 (by decide)
+  obtain ⟨c3, hnm2, hr3, hp3⟩ := name_quoted_ok c2 col _ hN2 hc hp2
+  have hnodot : sym "." c3 = .fail := hdot c3 hr3
+  refine ⟨c3, ?_, hr3, hp3⟩
+  unfold colName alt
+  simp only [bind, pbind, hnm1, hdt, hnm2, hnodot, pure, ppure]
 
 /-- one setting word, followed by a comma or the closing bracket -/
 theorem columnSetting_flag (c : Cur) (w : Flag) (x : Char) (rest : Str) (hn : (skipWs c).rest = w.text ++ x :: rest)
@@ -155,6 +176,40 @@ theorem columnSetting_flag (c : Cur) (w : Flag) (x : Char) (rest : Str) (hn : (s
       clit_fail "increment" c _ _ hN (swc_ne 'n' _ "increment" 'i' _ rfl (by decide)),
       hnote, after c2 hr2, pure, ppure, Flag.setting]
   | prop k v => exact absurd rfl (hnp k v)
+  | ref k tn cn =>
+    obtain ⟨htn, hcn⟩ := hw
+    have hn' : (skipWs c).rest = ['r', 'e', 'f', ':'] ++ ' ' :: (k.sym ++ ' ' :: sideText tn cn (x :: rest)) := by
+      rw [hn]; simp [Flag.text, IRefT.text, sideText]
+    have hN : Next c 'r' ('e' :: 'f' :: ':' :: ' ' :: (k.sym ++ ' ' :: sideText tn cn (x :: rest))) := hn'
+    obtain ⟨q1, q2⟩ := quiet_of_next c 'r' _ hN (by decide) (by decide)
+    have hs0 := skipNl_stay c q1 q2
+    obtain ⟨c1, hk, hr1, hp1⟩ := clit_ok "ref:" c ['r', 'e', 'f', ':'] _ hn' (by decide)
+      (by simp [startsWithCaseless] <;> decide) hp
+    obtain ⟨y, yr, hy, hyd, hyw⟩ := kind_sym_head k
+    have hN1 : (skipWs c1).rest = k.sym ++ ' ' :: sideText tn cn (x :: rest) := by
+      have := skipWs_rest_spaces c1 1 y (yr ++ ' ' :: sideText tn cn (x :: rest)) (by rw [hr1, hy]; rfl) hyw
+      rw [this, hy]; rfl
+    obtain ⟨c2, hrel, hr2, hp2⟩ := relation_ok c1 k _ hN1 hp1
+    have hN2 : (skipWs c2).rest = sideText tn cn (x :: rest) :=
+      skipWs_rest_spaces c2 1 '"' _ (by rw [hr2]; rfl) (by decide)
+    obtain ⟨c3, hcol, hr3, hp3⟩ := colName_ok c2 tn cn (x :: rest) hN2
+      (fun d hd => sym_dot_fail_of_next d x rest (skipWs_rest_head d x rest hd hxw) (by rcases hx with rfl | rfl <;> decide))
+      htn hcn hp2
+    have href : refInline c = .ok (IRefT.bp { kind := k, tn := tn, cn := cn }) c3 := by
+      unfold refInline
+      simp only [bind, pbind, hk, cut, hrel, hcol, pure, ppure, IRefT.bp, Option.getD_none]
+    refine ⟨c3, ?_, hr3, hp3⟩
+    unfold columnSetting
+    simp only [bind, pbind, hs0, alt,
+      clit_fail "not null" c _ _ hN (swc_ne 'r' _ "not null" 'n' _ rfl (by decide)),
+      clit_fail "null" c _ _ hN (swc_ne 'r' _ "null" 'n' _ rfl (by decide)),
+      clit_fail "primary key" c _ _ hN (swc_ne 'r' _ "primary key" 'p' _ rfl (by decide)),
+      clit_fail "pk" c _ _ hN (swc_ne 'r' _ "pk" 'p' _ rfl (by decide)),
+      clit_fail "unique" c _ _ hN (swc_ne 'r' _ "unique" 'u' _ rfl (by decide)),
+      clit_fail "increment" c _ _ hN (swc_ne 'r' _ "increment" 'i' _ rfl (by decide)),
+      show noteRule c = .fail by
+        unfold noteRule; simp only [bind, pbind, clit_fail "note:" c _ _ hN (swc_ne 'r' _ "note:" 'n' _ rfl (by decide))],
+      href, after c3 hr3, pure, ppure, Flag.setting]
   | defInt d =>
     obtain ⟨hne, hall, hhead, hlen⟩ := hw
     obtain ⟨d0, ds, rfl⟩ : ∃ d0 ds, d = d0 :: ds := by
@@ -329,6 +384,7 @@ theorem item_ok (props : Bool) (c : Cur) (w : Flag) (x : Char) (rest : Str)
   | notNull => exact key (by intro k v h; cases h)
   | note t => exact key (by intro k v h; cases h)
   | defInt d => exact key (by intro k v h; cases h)
+  | ref k' tn cn => exact key (by intro k v h; cases h)
 
 /-! ### the settings list: `[w1, w2, …]` -/
 
@@ -354,6 +410,7 @@ theorem flag_text_head (props : Bool) (w : Flag) (hw : w.ok props) :
   | notNull => exact ⟨'n', _, rfl, by decide, by decide, by decide⟩
   | note t => exact ⟨'n', _, rfl, by decide, by decide, by decide⟩
   | defInt d => exact ⟨'d', _, rfl, by decide, by decide, by decide⟩
+  | ref k tn cn => exact ⟨'r', _, rfl, by decide, by decide, by decide⟩
 
 theorem many_flags (props : Bool) (ws : List Flag) (post : Str) (hws : ∀ w ∈ ws, w.ok props) :
     ∀ (fuel : Nat) (c : Cur), ws.length < fuel → c.rest = moreFlags ws ++ ']' :: post → c.pastEnd = false →
@@ -559,6 +616,8 @@ structure FCol where
   props : List (Str × Str) := []
   /-- an integer default, as decimal digits; empty means: no default -/
   dflt : Str := []
+  /-- the inline references the column declares (kind, names of the target table and column) -/
+  irefs : List IRefT := []
 
 /-- the ordinary settings in the order the renderer writes them -/
 def FCol.base (s : FCol) : List Flag :=
@@ -568,9 +627,10 @@ def FCol.base (s : FCol) : List Flag :=
     ++ (if s.note.isEmpty then [] else [Flag.note s.note])
 
 def propFlags (ps : List (Str × Str)) : List Flag := ps.map fun kv => Flag.prop kv.1 kv.2
+def refFlags (rs : List IRefT) : List Flag := rs.map fun r => Flag.ref r.kind r.tn r.cn
 
-/-- all the settings: the ordinary ones, then the properties -/
-def FCol.flags (s : FCol) : List Flag := s.base ++ propFlags s.props
+/-- all the settings in the renderer's order: the inline references, the ordinary ones, the properties -/
+def FCol.flags (s : FCol) : List Flag := refFlags s.irefs ++ (s.base ++ propFlags s.props)
 
 def FCol.str (s : FCol) : Str := '"' :: (s.name ++ '"' :: ' ' :: (s.type ++ flagsText s.flags))
 
@@ -578,7 +638,8 @@ def FCol.bp (s : FCol) : Bp.ColBp :=
   { name := s.name, type := s.type, unique := s.unique, notNull := s.notNull, pk := s.pk, autoinc := s.increment,
     note := if s.note.isEmpty then none else some s.note,
     props := if s.props.isEmpty then none else some s.props,
-    default := if s.dflt.isEmpty then none else some (.int s.dflt) }
+    default := if s.dflt.isEmpty then none else some (.int s.dflt),
+    refs := s.irefs.map IRefT.bp }
 
 def FCol.col (s : FCol) : Column :=
   { name := s.name, type := .plain s.type, unique := s.unique, notNull := s.notNull, pk := s.pk, autoinc := s.increment,
@@ -598,11 +659,13 @@ structure FCol.ok (ap : Bool) (s : FCol) : Prop where
   values : ∀ kv ∈ s.props, Plain kv.2 ∧ hasTriple kv.2 = false
   distinct : s.props.Pairwise (fun a b => a.1 ≠ b.1)
   digits : s.dflt = [] ∨ DigitsOK s.dflt
+  refNames : ∀ r ∈ s.irefs, NameOK r.tn ∧ NameOK r.cn
 
 theorem FCol.flags_ok (ap : Bool) (s : FCol) (hok : s.ok ap) : ∀ w ∈ s.flags, w.ok ap := by
   intro w hw
-  simp only [FCol.flags, FCol.base, propFlags, List.mem_append, List.mem_map] at hw
-  rcases hw with (((((h | h) | h) | h) | h) | h) | ⟨kv, hkv, rfl⟩
+  simp only [FCol.flags, FCol.base, propFlags, refFlags, List.mem_append, List.mem_map] at hw
+  rcases hw with ⟨r, hr, rfl⟩ | (((((h | h) | h) | h) | h) | h) | ⟨kv, hkv, rfl⟩
+  · exact hok.refNames r hr
   · split at h <;> simp at h; subst h; trivial
   · split at h <;> simp at h; subst h; trivial
   · split at h
@@ -625,8 +688,48 @@ theorem FCol.flags_ok (ap : Bool) (s : FCol) (hok : s.ok ap) : ∀ w ∈ s.flags
 
 def propItems (ps : List (Str × Str)) : List ColSetting := ps.map fun kv => ColSetting.prop kv.1 kv.2
 
-theorem map_setting_flags (s : FCol) : s.flags.map Flag.setting = s.base.map Flag.setting ++ propItems s.props := by
-  simp [FCol.flags, propFlags, propItems, Flag.setting, Function.comp_def]
+def refItems (rs : List IRefT) : List ColSetting := rs.map fun r => ColSetting.ref r.bp
+
+theorem map_setting_flags (s : FCol) :
+    s.flags.map Flag.setting = refItems s.irefs ++ (s.base.map Flag.setting ++ propItems s.props) := by
+  simp [FCol.flags, propFlags, propItems, refFlags, refItems, Flag.setting, Function.comp_def]
+
+theorem foldl_refItems {β} (f : β → ColSetting → β) (hf : ∀ a r, f a (ColSetting.ref r) = a) (rs : List IRefT)
+    (a : β) : (refItems rs).foldl f a = a := by
+  induction rs generalizing a with
+  | nil => rfl
+  | cons p r ih => simp only [refItems, List.map_cons, List.foldl_cons, hf]; exact ih a
+
+theorem any_refItems (f : ColSetting → Bool) (hf : ∀ r, f (ColSetting.ref r) = false) (rs : List IRefT) :
+    (refItems rs).any f = false := by
+  induction rs with
+  | nil => rfl
+  | cons p r ih => simp only [refItems, List.map_cons, List.any_cons, hf, Bool.false_or]; exact ih
+
+theorem filterMap_refItems_none {β} (f : ColSetting → Option β) (hf : ∀ r, f (ColSetting.ref r) = none)
+    (rs : List IRefT) : (refItems rs).filterMap f = [] := by
+  induction rs with
+  | nil => rfl
+  | cons p r ih => simp only [refItems, List.map_cons, List.filterMap_cons, hf]; exact ih
+
+theorem filterMap_refItems_some (f : ColSetting → Option Bp.RefBp) (hf : ∀ r, f (ColSetting.ref r) = some r)
+    (rs : List IRefT) : (refItems rs).filterMap f = rs.map IRefT.bp := by
+  induction rs with
+  | nil => rfl
+  | cons p r ih =>
+    simp only [refItems, List.map_cons, List.filterMap_cons, hf]
+    exact congrArg _ ih
+
+/-- the settings dict of inline references followed by other settings: the references only add to `refs` -/
+theorem fold_prefix_refs (rs : List IRefT) (B : List ColSetting) (cm : Option Str) :
+    foldColSettings (refItems rs ++ B) cm
+      = { foldColSettings B cm with refs := rs.map IRefT.bp ++ (foldColSettings B cm).refs } := by
+  unfold foldColSettings
+  simp only [List.foldl_append, List.any_append, List.filterMap_append]
+  rw [foldl_refItems _ (fun _ _ => rfl), foldl_refItems _ (fun _ _ => rfl), foldl_refItems _ (fun _ _ => rfl),
+    any_refItems _ (fun _ => rfl), any_refItems _ (fun _ => rfl), any_refItems _ (fun _ => rfl),
+    filterMap_refItems_some _ (fun _ => rfl), filterMap_refItems_none _ (fun _ => rfl)]
+  simp
 
 theorem foldl_propItems {β} (f : β → ColSetting → β) (hf : ∀ a k v, f a (ColSetting.prop k v) = a) (ps : List (Str × Str))
     (a : β) : (propItems ps).foldl f a = a := by
@@ -707,19 +810,26 @@ theorem FCol.base_no_prop (s : FCol) : ∀ x ∈ s.base.map Flag.setting, ∀ k 
 theorem FCol.settings_bp (s : FCol) (w : Flag) (ws : List Flag) (h : s.flags = w :: ws)
     (hd : s.props.Pairwise (fun a b => a.1 ≠ b.1)) :
     colOfSettings s.name s.type (foldColSettings ((w :: ws).map Flag.setting) none) = s.bp := by
-  rw [← h, map_setting_flags, fold_append_props _ _ (FCol.base_no_prop s)]
-  obtain ⟨n, t, a, b, c, d, e, ps, dd⟩ := s
+  rw [← h, map_setting_flags, fold_prefix_refs, fold_append_props _ _ (FCol.base_no_prop s)]
+  have hr : (foldColSettings (s.base.map Flag.setting) none).refs = [] := by
+    obtain ⟨n, t, a, b, c, d, e, ps, dd, rr⟩ := s
+    cases dd <;> cases e <;> cases a <;> cases b <;> cases c <;> cases d <;> rfl
+  simp only [hr, List.append_nil]
+  obtain ⟨n, t, a, b, c, d, e, ps, dd, rr⟩ := s
   have hdict := dictOf_distinct ps hd
   cases dd <;> cases e <;> cases a <;> cases b <;> cases c <;> cases d <;>
     (simp only [colOfSettings, FCol.bp, hdict]; rfl)
 
 theorem FCol.plain_bp (s : FCol) (h : s.flags = []) : plainCol s.name s.type = s.bp := by
-  obtain ⟨n, t, a, b, c, d, e, ps, dd⟩ := s
+  obtain ⟨n, t, a, b, c, d, e, ps, dd, rr⟩ := s
+  cases rr with
+  | cons p r => exfalso; simp [FCol.flags, refFlags] at h
+  | nil =>
   cases ps with
   | cons p r => exfalso; simp [FCol.flags, propFlags] at h
   | nil =>
     cases dd <;> cases e <;> cases a <;> cases b <;> cases c <;> cases d <;>
-      first | rfl | (exfalso; simp [FCol.flags, FCol.base, propFlags] at h)
+      first | rfl | (exfalso; simp [FCol.flags, FCol.base, propFlags, refFlags] at h)
 
 /-! #### the rendered line -/
 
@@ -782,6 +892,32 @@ theorem flag_text_line (ap : Bool) (w : Flag) (hw : w.ok ap) : LineOK w.text ∧
       rcases List.mem_append.mp hc with h | h
       · exact (by decide : ∀ c ∈ ['d', 'e', 'f', 'a', 'u', 'l', 't', ':', ' '], c ≠ '\t') c h
       · exact nameChar_not_tab c (hd c h)
+  | ref k tn cn =>
+    obtain ⟨htn, hcn⟩ := hw
+    have e : (Flag.ref k tn cn).text = ['r', 'e', 'f', ':', ' '] ++ k.sym ++ [' ', '"'] ++ tn ++ ['"', '.', '"'] ++ cn ++ ['"'] := by
+      simp [Flag.text, IRefT.text]
+    have hk : ∀ c ∈ k.sym, isLineBreak c = false ∧ c ≠ '\t' := by cases k <;> decide
+    constructor
+    · intro c hc
+      rw [e] at hc; simp only [List.mem_append] at hc
+      rcases hc with (((((h | h) | h) | h) | h) | h) | h
+      · exact (by decide : ∀ c ∈ ['r', 'e', 'f', ':', ' '], isLineBreak c = false) c h
+      · exact (hk c h).1
+      · exact (by decide : ∀ c ∈ [' ', '"'], isLineBreak c = false) c h
+      · exact (htn c h).2.2.1
+      · exact (by decide : ∀ c ∈ ['"', '.', '"'], isLineBreak c = false) c h
+      · exact (hcn c h).2.2.1
+      · exact (by decide : ∀ c ∈ ['"'], isLineBreak c = false) c h
+    · intro c hc
+      rw [e] at hc; simp only [List.mem_append] at hc
+      rcases hc with (((((h | h) | h) | h) | h) | h) | h
+      · exact (by decide : ∀ c ∈ ['r', 'e', 'f', ':', ' '], c ≠ '\t') c h
+      · exact (hk c h).2
+      · exact (by decide : ∀ c ∈ [' ', '"'], c ≠ '\t') c h
+      · exact (htn c h).2.2.2
+      · exact (by decide : ∀ c ∈ ['"', '.', '"'], c ≠ '\t') c h
+      · exact (hcn c h).2.2.2
+      · exact (by decide : ∀ c ∈ ['"'], c ≠ '\t') c h
   | pk => exact ⟨by intro c hc; revert c; decide, by intro c hc; revert c; decide⟩
   | increment => exact ⟨by intro c hc; revert c; decide, by intro c hc; revert c; decide⟩
   | unique => exact ⟨by intro c hc; revert c; decide, by intro c hc; revert c; decide⟩
@@ -883,7 +1019,7 @@ theorem truthy_digits (d : Str) (h : DigitsOK d) : (DefaultVal.int d).truthy = t
     simp [DefaultVal.truthy, hx]
 
 theorem FCol.render (db : Db) (ti ci : Nat) (s : FCol) (hok : s.ok db.allowProps)
-    (hni : ∀ r ∈ db.refs, r.inline = false) :
+    (hinl : (Dbml.inlineRefsOfColumn db ti ci).mapM (Dbml.renderInlineRef db) = .ok (s.irefs.map IRefT.text)) :
     Dbml.renderColumn db ti ci s.col = .ok s.str := by
   generalize hap : db.allowProps = ap at hok
   have hnl := containsChar_plain s.note hok.notePlain
@@ -898,7 +1034,7 @@ theorem FCol.render (db : Db) (ti ci : Nat) (s : FCol) (hok : s.ok db.allowProps
       intro kv hkv
       have := containsChar_plain kv.2 (hok.values kv hkv).1
       simp [quoteString, this, Flag.text, lit]
-  have hopts : ([] : List Str)
+  have hopts : (s.irefs.map IRefT.text)
       ++ (if s.col.pk then [lit "pk"] else [])
       ++ (if s.col.autoinc then [lit "increment"] else [])
       ++ (match s.col.default with
@@ -912,9 +1048,14 @@ theorem FCol.render (db : Db) (ti ci : Nat) (s : FCol) (hok : s.ok db.allowProps
     have e : (if ap then s.col.props.map fun (x : Str × Str) => x.fst ++ lit ": " ++ quoteString x.snd else [])
         = (propFlags s.props).map Flag.text := hprops
     rw [e]
-    simp only [FCol.flags, List.map_append]
+    have hrf : s.irefs.map IRefT.text = (refFlags s.irefs).map Flag.text := by
+      simp [refFlags, Flag.text, Function.comp_def]
+    rw [hrf]
+    simp only [FCol.flags, List.map_append, List.append_assoc]
     congr 1
-    obtain ⟨n, t, a, b, c, d, e', ps, dd⟩ := s
+    simp only [← List.append_assoc]
+    congr 1
+    obtain ⟨n, t, a, b, c, d, e', ps, dd, rr⟩ := s
     cases dd with
     | nil =>
       cases e' <;> cases a <;> cases b <;> cases c <;> cases d <;>
@@ -932,12 +1073,7 @@ theorem FCol.render (db : Db) (ti ci : Nat) (s : FCol) (hok : s.ok db.allowProps
   unfold Dbml.renderColumn
   have hty : Sql.typeText db s.col = .ok s.type := by
     simp [Sql.typeText, FCol.col, pure, Except.pure]
-  have hin : Dbml.inlineRefsOfColumn db ti ci = [] := by
-    unfold Dbml.inlineRefsOfColumn
-    rw [List.filter_eq_nil_iff]
-    intro r hr
-    simp [hni r hr]
-  simp only [hty, hin, List.mapM_nil, bind, Except.bind, pure, Except.pure, hap]
+  simp only [hty, hinl, bind, Except.bind, pure, Except.pure, hap]
   exact fin _ hopts
 
 def flagForm : ColForm FCol where
@@ -981,12 +1117,13 @@ def flagForm : ColForm FCol where
     rcases hch with h | h
     · exact colStr_ok (s.name, s.type) hok.name hok.type ch h
     · exact (flagsText_line ap s.flags (FCol.flags_ok ap s hok)).1 ch h
-  norefs := fun _ => rfl
+  irefs := FCol.irefs
+  bp_refs := fun _ => rfl
   build := by
     intro ap enums s hok hres
     have hn := hok.noteNorm
     have hdig := hok.digits
-    obtain ⟨n, t, a, b, c, d, e, ps, dd⟩ := s
+    obtain ⟨n, t, a, b, c, d, e, ps, dd, rr⟩ := s
     have hres' : resolveTypePure enums t = ColType.plain t := hres
     cases dd with
     | nil =>
@@ -998,7 +1135,7 @@ def flagForm : ColForm FCol where
       cases ps <;> cases e <;>
         simp_all [buildColumn, buildDefault, resolveType, buildNote, FCol.bp, FCol.col,
           bind, Except.bind, pure, Except.pure]
-  render := fun db ti ci s hok hni => FCol.render db ti ci s hok hni
+  render := fun db ti ci s hok hinl => FCol.render db ti ci s hok hinl
 
 /-- **C02 (and C15) for a table whose columns carry settings, end to end**: a database holding one table in schema
     public with any positive number of columns, each with a quoted name, a one-word type, ANY SUBSET of the settings
@@ -1008,11 +1145,11 @@ def flagForm : ColForm FCol where
     `column_settings_with_properties` (switch on), `parse_column_settings`, `ColumnBlueprint.build` (where the note
     is normalised) and `render_column`. -/
 theorem flags_table_roundtrip_partial (ap : Bool) (tn : Str) (cs : List FCol)
-    (htn : NameOK tn) (hcs : ∀ s ∈ cs, s.ok ap) (hne : cs ≠ []) :
+    (htn : NameOK tn) (hcs : ∀ s ∈ cs, s.ok ap) (hne : cs ≠ []) (hno : ∀ s ∈ cs, s.irefs = []) :
     ∃ text, Dbml.renderDb { tables := [{ name := tn, columns := cs.map FCol.col }], allowProps := ap } = .ok text
       ∧ Build.parse ap text
           = .ok { tables := [{ name := tn, columns := cs.map FCol.col }], allowProps := ap } :=
-  form_roundtrip flagForm ap tn cs htn hcs hne
+  form_roundtrip flagForm ap tn cs htn hcs hne hno
 
 /-- a key whose first letter begins no setting word is a property key -/
 theorem keyOK_of_first (x : Char) (xs : Str) (hall : (x :: xs).all isNameChar = true)
@@ -1036,9 +1173,9 @@ example : ∀ s ∈ [({ name := lit "id", type := lit "int", pk := true, increme
   simp at hs
   rcases hs with rfl | rfl | rfl
   · exact ⟨fun c hc => by revert c; decide, ⟨by decide, by decide⟩, fun c hc => by revert c; decide, by decide, by decide,
-      Or.inl rfl, (by intro kv h; cases h), (by intro kv h; cases h), by simp, Or.inl rfl⟩
+      Or.inl rfl, (by intro kv h; cases h), (by intro kv h; cases h), by simp, Or.inl rfl, (by intro r h; cases h)⟩
   · refine ⟨fun c hc => by revert c; decide, ⟨by decide, by decide⟩, fun c hc => by revert c; decide, by decide, by decide,
-      Or.inr rfl, ?_, ?_, by decide, Or.inl rfl⟩
+      Or.inr rfl, ?_, ?_, by decide, Or.inl rfl, (by intro r h; cases h)⟩
     · intro kv h
       simp at h
       rcases h with rfl | rfl
@@ -1048,7 +1185,7 @@ example : ∀ s ∈ [({ name := lit "id", type := lit "int", pk := true, increme
       simp at h
       rcases h with rfl | rfl <;> exact ⟨fun c hc => by revert c; decide, by decide⟩
   · exact ⟨fun c hc => by revert c; decide, ⟨by decide, by decide⟩, fun c hc => by revert c; decide, by decide, by decide,
-      Or.inl rfl, (by intro kv h; cases h), (by intro kv h; cases h), by simp, Or.inr ⟨by decide, by decide, by decide, by decide⟩⟩
+      Or.inl rfl, (by intro kv h; cases h), (by intro kv h; cases h), by simp, Or.inr ⟨by decide, by decide, by decide, by decide⟩, (by intro r h; cases h)⟩
 
 /-- the text of such a table, as the renderer model writes it (a test of the statement on one literal) -/
 example : flagForm.tableText (lit "t") [{ name := lit "id", type := lit "int", pk := true, increment := true, dflt := lit "7" },
